@@ -223,6 +223,8 @@ impl<'a> FnTr<'a> {
                 Err(format!("unknown type {}", name))
             }
             Type::Reference(r) => self.ty(&r.elem),
+            // builder V: `impl RngCore` in argument position is the unit's abstract generator type `RNG`
+            Type::ImplTrait(it) if self.reg.structs.contains_key("RNG") && it.bounds.iter().any(|b| matches!(b, TypeParamBound::Trait(tb) if tb.path.segments.last().map(|s| s.ident == "RngCore").unwrap_or(false))) => Ok(Ty::Named("RNG".into())),
             Type::Paren(p) => self.ty(&p.elem),
             Type::Tuple(t) => {
                 if t.elems.is_empty() {
@@ -381,6 +383,32 @@ impl<'a> FnTr<'a> {
                         (None, Pat::Ident(pi)) if open_int_expr(&init.expr) => self.infer_from_uses(&pi.ident.to_string(), &stmts[i + 1..], env),
                         _ => expect,
                     };
+                    // builder V: `let PAT = if .. / match ..;` whose branches change `&mut` state (a call on `self`, a
+                    // draw from `rng`): every branch yields its value TOGETHER with the state it leaves (phi on the
+                    // `&mut` parameters), as the statement-level `if` / `match` do.  Only in units with an abstract generator (`RNG`):
+                    // the units generated before keep their text (none of them changes state inside such a branch).
+                    if !self.muts.is_empty() && self.reg.structs.contains_key("RNG") && init.diverge.is_none() && matches!(&*init.expr, Expr::If(_) | Expr::Match(_)) && !contains_return(&init.expr) {
+                        let mut vars = assigned_roots(&init.expr, &self.muts);
+                        vars.retain(|v| env.contains_key(v) && self.muts.contains(v));
+                        vars.sort();
+                        vars.dedup();
+                        if !vars.is_empty() {
+                            let mut env_v = env.clone();
+                            let mut pre: Stmts = vec![];
+                            let (tail, ty) = self.tail_expr_ty_value(&init.expr, &mut env_v, &mut pre, expect.clone())?;
+                            let mut seq = Seq { stmts: pre, tail };
+                            let vs = vars.clone();
+                            wrap_exits(&mut seq, &mut self.counter, &|v: &str| exit_term(v, false, &vs));
+                            let p = match &l.pat {
+                                Pat::Type(pt) => &*pt.pat,
+                                p => p,
+                            };
+                            let name = self.pat(p, &ty, env)?;
+                            st.extend(seq.stmts);
+                            st.push((exit_term(&name, false, &vars), Rhs::Br(Box::new(seq.tail))));
+                            continue;
+                        }
+                    }
                     let (term, ty) = self.ex(&init.expr, env, &mut st, expect.clone())?;
                     let ty = match (&ty, &expect) {
                         (Ty::IntLit, Some(e)) => e.clone(),
@@ -937,7 +965,7 @@ impl<'a> FnTr<'a> {
             render_p(&step, 3, &mut body);
             body.push(')');
         }
-        st.push((tup.clone(), Rhs::Act(format!("Rt.loopM LoopFuel.fuel (fun {} => {}) {}", tup, body, tup))));
+        st.push((tup.clone(), Rhs::Act(format!("Rt.loopM LoopFuel.fuel (fun {} => {}) <| {}", tup, body, tup))));
         Ok(())
     }
 
@@ -990,7 +1018,7 @@ impl<'a> FnTr<'a> {
         }
         let v = self.fresh();
         let res = exit_term(&v, false, &muts);
-        st.push((res, Rhs::Act(format!("Rt.loopM LoopFuel.fuel (fun {} => {}) {}", tup, body, tup))));
+        st.push((res, Rhs::Act(format!("Rt.loopM LoopFuel.fuel (fun {} => {}) <| {}", tup, body, tup))));
         Ok(Tail::Val(v))
     }
 
@@ -1164,6 +1192,12 @@ impl<'a> FnTr<'a> {
             body.push(')');
         }
         let tup = tuple_of(&carried);
+        // builder V: in deeply nested `do` blocks an argument after the multi-line lambda falls left of the enclosing
+        // block's column (Lean's `checkColGt`); `<|` does not care.  The units generated before keep their text.
+        if self.reg.structs.contains_key("RNG") {
+            st.push((tup.clone(), Rhs::Act(format!("Rt.forRangeM {} {} (fun {} {} => {}) <| {}", paren(&a), paren(&b), iv, tup, body, tup))));
+            return Ok(());
+        }
         st.push((tup.clone(), Rhs::Act(format!("Rt.forRangeM {} {} (fun {} {} => {}) {}", paren(&a), paren(&b), iv, tup, body, tup))));
         Ok(())
     }
@@ -1847,7 +1881,7 @@ impl<'a> FnTr<'a> {
         // is not the value of the block)
         let mut owned: Vec<Stmt> = stmts.to_vec();
         if let Some(Stmt::Expr(e, None)) = owned.last().cloned() {
-            if matches!(e, Expr::If(_) | Expr::Match(_) | Expr::Block(_)) {
+            if matches!(e, Expr::If(_) | Expr::Match(_) | Expr::Block(_) | Expr::While(_) | Expr::ForLoop(_)) {
                 let k = owned.len() - 1;
                 owned[k] = Stmt::Expr(e, Some(Default::default()));
             }
@@ -3220,6 +3254,11 @@ impl<'a> FnTr<'a> {
                 }
                 _ => Err(format!("unsupported heapless::Vec method {}", name)),
             },
+            // builder V: `b.then_some(v)` (the argument is evaluated, with its checks, before the test — as in Rust)
+            Ty::Bool if name == "then_some" && m.args.len() == 1 => {
+                let (a, ta) = self.ex(&m.args[0], env, st, None)?;
+                Ok((format!("(if {} then some {} else none)", r, paren(&a)), Ty::Opt(Box::new(ta))))
+            }
             Ty::Bool => Err(format!("unsupported bool method {}", name)),
             _ => Err(format!("unsupported method {} on {:?}", name, tr)),
         }
